@@ -315,6 +315,7 @@ func Apply(ctx context.Context, rc *regclient.RegClient, rSrc ref.Ref, opts ...O
 					return nil, err
 				}
 				err = rdr.Close()
+				rdr = nil // closed: the deferred Close must not run the steps' close functions a second time
 				if err != nil {
 					return nil, err
 				}
